@@ -174,6 +174,21 @@ fn main() {
         let (x, y) = pos[(d % 2) as usize];
         run_case(&mut rec, &json!({"k":"circle","tl":[x, y],"d":d}));
     }
+    // display-scale circles, ellipses and rounded rectangles between the exhaustive small range and the "big" probes
+    // (a hit test with a fast path that is wrong only from some diameter on: 7/5 for the square root of 2 is exact
+    // below 140)
+    {
+        let ds: Vec<u32> = if th { (129..=1024).step_by(7).chain([255, 256, 257, 511, 512, 513, 1000, 1023, 1024]).collect() }
+                           else { vec![47, 64, 97, 128, 140, 147, 154, 181, 200, 255, 256, 257, 300, 333, 480, 640, 1000, 1024] };
+        for (n, d) in ds.iter().enumerate() {
+            let (x, y) = pos[n % 2];
+            run_case(&mut rec, &json!({"k":"circle","tl":[x - (*d as i32) / 3, y],"d":d}));
+        }
+        for (w, h) in [(100u32, 37u32), (37, 100), (141, 140), (257, 256), (320, 240), (240, 320), (480, 101), (640, 480), (1024, 600), (333, 1000)] {
+            run_case(&mut rec, &json!({"k":"ellipse","tl":[-(w as i32) / 2, 5 - h as i32],"size":[w, h]}));
+            run_case(&mut rec, &json!({"k":"rrect","r":[-7, 3 - (h as i32) / 2, w, h],"radii":[[w / 3, h / 2], [w / 5, h / 7], [w / 2, h / 2], [9, h / 3]]}));
+        }
+    }
     // ellipses: all sizes up to N x N plus all thin ones
     let emax = if th { 64 } else { 24 };
     for w in 0..=emax {
